@@ -552,6 +552,13 @@ fn run_single_program(
             let pid: i32 = child.into();
             if idx_cmd == 0 {
                 *pgid = pid;
+            }
+            // the group is set from both sides: a later stage must not find
+            // the group missing because the first child has not run yet
+            unsafe {
+                libc::setpgid(pid, *pgid);
+            }
+            if idx_cmd == 0 {
                 unsafe {
                     // we need to wait pgid of child set to itself,
                     // before give terminal to it (for macos).
